@@ -169,7 +169,7 @@ class Engine(EngineBase):
                                       ("buffer_enter", "forced_flush_capacity", "restart", "remove_reinit", "rekey")}
             res["digest"] = world.digest()
             res["stats"]["steps"] = world.seq
-            res["stats"]["sim_ms"] = world.clock_ms - 1_000_000_000
+            res["stats"]["sim_ms"] = world.clock_ms - 1_000_000_000_000
         return res
 
 
